@@ -116,7 +116,9 @@ func GenLineFilter(t *rapid.T, s Schema) gen.Stage {
 			st.Op = "!="
 		}
 		st.Value = genBS(rapid.SampledFrom([]string{"10.0.0.1", "10.0.0.0/8", "10.0.0.1-10.0.0.9", "192.168.0.0/16", "::1", "2001:db8::/32", "172.16.5.4", "10.0.0.2-10.0.0.4",
-			"fe80::/10", "fe80::a", "::", "::/0", "a::", "abcd:ef01::a", "2001:db8::f00d", "::f"}).Draw(t, "ip-pattern"))
+			"fe80::/10", "fe80::a", "::", "::/0", "a::", "abcd:ef01::a", "2001:db8::f00d", "::f",
+			// a network written with host bits set is still the whole network
+			"192.168.1.77/24", "10.0.0.200/8", "172.16.5.200/12", "2001:db8::ff00/32", "10.0.0.5/30"}).Draw(t, "ip-pattern"))
 		return st
 	}
 	st := gen.Stage{Kind: "linefilter"}
@@ -178,7 +180,7 @@ var durLiteralKeys = []string{"100ms", "1s", "2s", "1m", "90s", "1h", "1m30s", "
 var bytesLiterals = []string{"1KB", "1KiB", "1MB", "600B", "10kb", "10KB", "2MiB", "1.5MB", "512b", "1GB"}
 var numLiterals = []string{"200", "404", "499.5", "1e2", "0", "500", "1.5", "7", "0.5", "100"}
 var ipLiterals = []string{"10.0.0.0/8", "192.168.1.7", "10.0.0.1-10.0.0.9", "::1", "2001:db8::/32", "10.0.0.1", "172.16.0.0/12",
-	"fe80::/10", "fe80::a", "::", "a::", "abcd:ef01::a", "::f"}
+	"fe80::/10", "fe80::a", "::", "a::", "abcd:ef01::a", "::f", "192.168.1.77/24", "10.0.0.200/8", "2001:db8::ff00/32", "10.0.0.5/30"}
 
 func typedFields(s Schema, afterParser bool) []Field {
 	out := append([]Field{}, s.Labels...)
